@@ -308,6 +308,15 @@ func (tx *TransactionImpl) Rollback() error {
 	return nil
 }
 
+// lastActive returns the time of the transaction's last operation. Every
+// operation updates it under the transaction's mutex, so readers outside the
+// transaction (the registry's stale-transaction sweep) must take it as well.
+func (tx *TransactionImpl) lastActive() time.Time {
+	tx.mu.Lock()
+	defer tx.mu.Unlock()
+	return tx.lastActiveTime
+}
+
 // IsReadOnly returns true if this is a read-only transaction
 func (tx *TransactionImpl) IsReadOnly() bool {
 	return tx.mode == ReadOnly
